@@ -1,5 +1,6 @@
 import L21.Props.C04Order
 import L21.Proofs.LefRTLib
+import L21.Props.C04L
 /-
 C04 — statement ORDER at LIBRARY level (reader model).
 
@@ -407,6 +408,27 @@ theorem c04_lib_reads_back (l : Lib) (ss : List LStmt) (T : List Tok)
     rw [hv] at this
     simp only [Option.some.injEq, Prod.mk.injEq, true_and]
     exact this
+
+/-- **Text level**: EVERY text that lays out — with any white space, line breaks and comments — the statements of a
+    sequence the reader's session admits, in that order, is read to the library the session builds: C04's "reading
+    that text yields exactly that library" for statement order AND lexical layout together. -/
+theorem c04_text_any_order (L : LefLexRT.Layout) (hL : L.ok = true) (ss : List LStmt) (v' : Dec) (l' : Lib)
+    (hitems : L.items.map (·.1) = wLibStmts ss) (hrun : runL startVer {} ss = some (v', l')) :
+    parse L.text = some l' := by
+  rw [c04_parse_layout L hL, hitems]
+  have := c04_lib_any_order ss startVer {} v' l' [] hrun
+  simpa [startVer] using this
+
+/-- … in particular every text that lays out a rendering `[VERSION] + statements in any interleaving + END LIBRARY` of a
+    library is read back to exactly that library -/
+theorem c04_text_reads_back (L : LefLexRT.Layout) (hL : L.ok = true) (l : Lib) (ss : List LStmt)
+    (hver : ∀ d, l.version = some d → (decOk d && versionOk d) = true)
+    (hok : ss.all (okAt (l.version.getD startVer)) = true) (h : RendersL ss l)
+    (hitems : L.items.map (·.1) = wLibStmts (l.version.toList.map .version ++ ss)) :
+    parse L.text = some l := by
+  rw [c04_parse_layout L hL, hitems]
+  have := c04_lib_reads_back l ss [] hver hok h
+  simpa [startVer] using this
 
 /-! non-vacuity: a library with a macro whose SIZE comes after its PIN, a site between two header statements, read in an
     order the writer never produces -/
